@@ -174,11 +174,17 @@ enum Item {
 
 /// ip packet: `frag` = Some((fragment offset, more fragments)) → IPv4 flags / IPv6 fragment header
 fn ip_packet(k: &Key, frag: Option<(u16, bool)>, payload: &[u8]) -> Vec<u8> {
+    ip_packet_rsv(k, frag, payload, 0)
+}
+
+/// `rsv`: reserved bits to set - bit 0: IPv4 reserved flag / IPv6 fragment header bit 1, bit 1: IPv6
+/// fragment header bit 2, bit 2: the reserved octet of the IPv6 fragment header
+fn ip_packet_rsv(k: &Key, frag: Option<(u16, bool)>, payload: &[u8], rsv: u8) -> Vec<u8> {
     let mut p = Vec::new();
     if k.ver == 4 {
         let total = 20 + payload.len();
         let (fo, mf) = frag.unwrap_or((0, false));
-        let ff: u16 = (if mf { 0x2000 } else { 0 }) | fo;
+        let ff: u16 = (if mf { 0x2000 } else { 0 }) | fo | (if rsv & 1 != 0 { 0x8000 } else { 0 });
         p.extend_from_slice(&[0x45, 0]);
         p.extend_from_slice(&(total as u16).to_be_bytes());
         p.extend_from_slice(&(k.ident as u16).to_be_bytes());
@@ -194,8 +200,8 @@ fn ip_packet(k: &Key, frag: Option<(u16, bool)>, payload: &[u8]) -> Vec<u8> {
         p.extend_from_slice(&k.src);
         p.extend_from_slice(&k.dst);
         if let Some((fo, mf)) = frag {
-            let ff: u16 = (fo << 3) | (if mf { 1 } else { 0 });
-            p.extend_from_slice(&[k.proto, 0]);
+            let ff: u16 = (fo << 3) | (if mf { 1 } else { 0 }) | (u16::from(rsv & 3) << 1);
+            p.extend_from_slice(&[k.proto, if rsv & 4 != 0 { 0xff } else { 0 }]);
             p.extend_from_slice(&ff.to_be_bytes());
             p.extend_from_slice(&k.ident.to_be_bytes());
         }
@@ -239,6 +245,26 @@ fn parse_item(s: &str) -> Option<Item> {
                 return None;
             }
             let (p, eth) = frame(&k, ip_packet(&k, Some((fo, mf)), &b));
+            Some(Item::Packet(p, eth, ts, k.chan))
+        }
+        ["d", key, ts, fo, mf, h, rsv] => {
+            let k = parse_key(key)?;
+            let ts: u64 = num(ts)?;
+            let fo: u16 = num(fo)?;
+            let mf = arg_bool(mf)?;
+            let b = hex(h)?;
+            let rsv: u8 = num(rsv)?;
+            let max_payload = if k.ver == 4 { 65515 } else { 65527 };
+            let fragmenting = mf || fo != 0;
+            if rsv == 0
+                || rsv > 7
+                || fo > 8191
+                || b.len() > max_payload
+                || (!fragmenting && TRANSPORT_NUMBERS.contains(&k.proto))
+            {
+                return None;
+            }
+            let (p, eth) = frame(&k, ip_packet_rsv(&k, Some((fo, mf)), &b, rsv));
             Some(Item::Packet(p, eth, ts, k.chan))
         }
         ["u", key, ts, h] => {
